@@ -117,7 +117,11 @@ func checkPoly(r *ev.Run, p []float64, planted []float64, note string) {
 	}
 	want := planted
 	if want == nil {
-		want = refSimpleRoots(p)
+		ref := p
+		for len(ref) > 1 && ref[len(ref)-1] == 0 {
+			ref = ref[:len(ref)-1] // zero leading coefficients do not change the polynomial
+		}
+		want = refSimpleRoots(ref)
 	}
 	// every real root: each expected root is matched by a returned one
 	for _, w := range want {
@@ -275,6 +279,28 @@ func polyStage(r *ev.Run, full bool) {
 			jobs = append(jobs, job{q, jobs[i].planted, fmt.Sprintf("%s, coefficients x %g", jobs[i].note, k)})
 		}
 	}
+	// every 7th polynomial again written with 1, 2 and 3 zero leading coefficients: the same polynomial, the same roots
+	n1 := len(jobs)
+	for i := 0; i < n1; i += 7 {
+		for z := 1; z <= 3; z++ {
+			q := append(append([]float64{}, jobs[i].p...), make([]float64, z)...)
+			jobs = append(jobs, job{q, jobs[i].planted, fmt.Sprintf("%s, written with %d zero leading coefficients", jobs[i].note, z)})
+		}
+	}
 	ev.Parallel(len(jobs), 0, func(i int) { checkPoly(r, jobs[i].p, jobs[i].planted, jobs[i].note) })
+	// the zero polynomial (however written) has infinitely many roots: documented answer is one NaN;
+	// a non-zero constant (however written) has none
+	for z := 0; z <= 4; z++ {
+		r.Eval(2)
+		zero := make([]float64, z)
+		got := numerical.Polynomial(zero).RealRoots()
+		if len(got) != 1 || !math.IsNaN(got[0]) {
+			r.Violation("RealRoots/zero-polynomial", fmt.Sprintf("zero polynomial written with %d coefficients: RealRoots = %v, documented: one NaN", z, got), pcase{"Polynomial.RealRoots", zero, "zero polynomial"})
+		}
+		cst := append([]float64{-2.5}, zero...)
+		if got := numerical.Polynomial(cst).RealRoots(); len(got) != 0 {
+			r.Violation("RealRoots/constant", fmt.Sprintf("constant polynomial %v: RealRoots = %v, but it has no root", cst, got), pcase{"Polynomial.RealRoots", cst, "constant"})
+		}
+	}
 	r.Set("polynomials", len(jobs))
 }
